@@ -378,6 +378,35 @@ where
                 if rl != l || rr != r {
                     bad.push("ranges rebuilt from accessors compare unequal".to_string());
                 }
+                // `Clone::clone_from` INTO an existing object of another length / other content, both
+                // ways, for every owned type of the diff API: the result must equal its source
+                {
+                    let mut x = sl.clone();
+                    x.clone_from(&sr);
+                    let mut y = sr.clone();
+                    y.clone_from(&sl);
+                    if x != sr || y != sl || x.iter().collect::<Vec<_>>() != r || y.iter().collect::<Vec<_>>() != l
+                        || x.iter().len() != r.len() || y.iter().len() != l.len()
+                    {
+                        bad.push("PageRangeSnapshot::clone_from does not reproduce its source".to_string());
+                    }
+                    let ol: Vec<merkle_search_tree::diff::OwnedPageRange<K>> = l.iter().cloned().map(Into::into).collect();
+                    let or_: Vec<merkle_search_tree::diff::OwnedPageRange<K>> = r.iter().cloned().map(Into::into).collect();
+                    let mut ox = ol.clone();
+                    ox.clone_from(&or_);
+                    let mut oy = or_.clone();
+                    oy.clone_from(&ol);
+                    if ox != or_ || oy != ol || PageRangeSnapshot::from(ox) != sr || PageRangeSnapshot::from(oy) != sl {
+                        bad.push("OwnedPageRange::clone_from does not reproduce its source".to_string());
+                    }
+                    let mut px = l.clone();
+                    px.clone_from(&r);
+                    let mut py = r.clone();
+                    py.clone_from(&l);
+                    if px != r || py != l {
+                        bad.push("PageRange::clone_from does not reproduce its source".to_string());
+                    }
+                }
                 if sl.iter().collect::<Vec<_>>() != l || sr.iter().collect::<Vec<_>>() != r {
                     bad.push("snapshot iter differs from borrowed ranges".to_string());
                 }
